@@ -8,7 +8,7 @@ import (
 	vrt "github.com/nuetzliches/hookaido/internal/verifrt"
 )
 
-// verif:harness props=C02 tprops=C13 tier=quick weight=90
+// verif:harness props=C02 tier=quick weight=90
 // verif:bounds SQLiteStore retention pruning over the SQL model: N=2 rows in any state with arbitrary timestamps; quick: exactly one rule active (queue retention / delivered retention / DLQ retention with an arbitrary positive age, or dlq max_depth 1); thorough: every combination, dlq max_depth in {0,1,2}, arbitrary positive prune interval, last prune never or arbitrary; pruning triggered through Dequeue for a route without messages (thorough: also through Enqueue of a new message)
 func VerifC02SQLPrune() {
 	n := 2
